@@ -308,6 +308,8 @@ impl<T: Send + Clone> SpmcShared<T> {
     // If the slot contains an active, initialized item from a previous cycle, we must drop it first to prevent a memory leak.
     if slot.sequence.load(Ordering::Relaxed) % 2 == 1 {
       unsafe {
+        #[cfg(all(loom, excsn_fibre_verif))]
+        crate::internal::verif_shadow::write(slot.value.get() as usize); // verification seam H10
         (*slot.value.get()).assume_init_drop();
       }
     }
@@ -320,6 +322,8 @@ impl<T: Send + Clone> SpmcShared<T> {
       slot_idx
     );
     unsafe {
+      #[cfg(all(loom, excsn_fibre_verif))]
+      crate::internal::verif_shadow::write(slot.value.get() as usize); // verification seam H10
       (*slot.value.get()).write(value);
       slot
         .sequence
@@ -408,11 +412,15 @@ impl<T: Send + Clone> SpmcShared<T> {
       // space check guarantees every consumer tail is past that lap.
       if slot.sequence.load(Ordering::Relaxed) % 2 == 1 {
         unsafe {
+          #[cfg(all(loom, excsn_fibre_verif))]
+          crate::internal::verif_shadow::write(slot.value.get() as usize); // verification seam H10
           (*slot.value.get()).assume_init_drop();
         }
       }
 
       unsafe {
+        #[cfg(all(loom, excsn_fibre_verif))]
+        crate::internal::verif_shadow::write(slot.value.get() as usize); // verification seam H10
         (*slot.value.get()).write(value);
       }
       slot.sequence.store(2 * idx + 1, Ordering::Release);
@@ -540,6 +548,8 @@ fn try_recv_internal<T: Send + Clone>(
   let slot_seq = slot.sequence.load(Ordering::Acquire);
 
   if slot_seq == 2 * current_tail_val + 1 {
+    #[cfg(all(loom, excsn_fibre_verif))]
+    crate::internal::verif_shadow::read(slot.value.get() as usize); // verification seam H10
     let value = unsafe { (*slot.value.get()).assume_init_ref().clone() };
     consumer_tail_idx.store(current_tail_val + 1, Ordering::Release);
     crate::log_event!(
@@ -621,6 +631,8 @@ fn try_recv_batch_internal<T: Send + Clone>(
       2 * idx + 1,
       "slot sequence must match for items below head"
     );
+    #[cfg(all(loom, excsn_fibre_verif))]
+    crate::internal::verif_shadow::read(slot.value.get() as usize); // verification seam H10
     out.push(unsafe { (*slot.value.get()).assume_init_ref().clone() });
   }
   consumer_tail_idx.store(current_tail_val + k, Ordering::Release);
